@@ -118,6 +118,42 @@ def run_item(item):
                          f"its argument {p} varies among the members "
                          f"({[T[p].iloc[j].item() if hasattr(T[p].iloc[j], 'item') else T[p].iloc[j] for j in members] if p in T.columns else ''})",
                     date=item["date"]))
+    if item["k"] % 2 == 1 and not item.get("second_pass"):
+        # the same persons once more in this process, but every second child of a family unit now lives in
+        # another (new) household: units must be rebuilt from the new households, columns stay constant per group
+        df2 = df.copy()
+        kids = np.where((df2["p_id_elternteil_1"].to_numpy() >= 0) & (df2["alter"].to_numpy() < 25)
+                        & (df2["p_id_einstandspartner"].to_numpy() < 0))[0][::2]
+        if len(kids):
+            new_hh = int(df2["hh_id"].max()) + 1 + np.arange(len(kids))
+            df2.loc[kids, "hh_id"] = new_hh
+            for c in [c for c in df2.columns if c.endswith("_hh")]:
+                df2.loc[kids, c] = df2[c].iloc[kids].to_numpy()  # own household: any value is constant there
+            df2["eigenbedarf_gedeckt"] = df2["eigenbedarf_gedeckt"] & ~df2.index.isin(kids)
+            df2["alleinerz"] = False
+            T2, nodes2, _, dag2, _ = env.trace(df2, params, functions, rounding=bool(item["k"] % 2))
+            res["second_pass_runs"] = 1
+            for t in nodes2:
+                lvl = level_of(t)
+                if lvl is None or t.endswith("_id") or f"{lvl}_id" not in T2.columns:
+                    continue
+                ids2 = T2[f"{lvl}_id"].tolist()
+                res["suffixed_nodes"] += 1
+                i2 = constant_within(T2[t].tolist(), ids2)
+                if i2 >= 0 and not any(level_of(p_) == lvl and constant_within(T2[p_].tolist(), ids2) >= 0
+                                        for p_ in dag2.predecessors(t) if p_ in T2.columns and not p_.endswith("_id")):
+                    vary = [p_ for p_ in dag2.predecessors(t) if p_ in T2.columns and not p_.endswith("_params")
+                            and constant_within(T2[p_].tolist(), ids2) >= 0]
+                    for p_ in vary or ["?"]:
+                        key = f"{t}:{p_}"
+                        if not any(v["key"] == key for v in res["violations"]):
+                            res["violations"].append(dict(key=key, what=f"{t} is not constant within {lvl} {ids2[i2]} after children moved to other "
+                                                                           f"households (second simulation in the same process); varying argument {p_}", date=item["date"]))
+            # units never span households
+            for lvl in ("fg", "bg", "wthh"):
+                if f"{lvl}_id" in T2.columns and (T2.groupby(f"{lvl}_id")["hh_id"].nunique() > 1).any():
+                    res["violations"].append(dict(key=f"{lvl}_id:spans_households", what=f"{lvl}_id spans several households in the second simulation "
+                                                                                        f"of the same persons with changed households", date=item["date"]))
     res["sample"] = dict(date=item["date"], population=popgen.describe(df))
     return res
 
@@ -138,6 +174,7 @@ def summarize(results, tier, seed):
         groups_checked=sum(r["groups_checked"] for r in ok), multi_member_groups_by_level=multi,
         propagated_not_reported=sum(r["propagated"] for r in ok),
         populations=len({r["pop"] for r in ok}), dates=sorted({r["date"] for r in ok}),
+        second_simulations_with_changed_households=sum(r.get("second_pass_runs", 0) for r in ok),
         samples=[r["sample"] for r in ok[:2]],
     )
     return dict(coverage=cov, violations=viol, inconclusive=inconclusive,
